@@ -271,11 +271,32 @@ theorem upqsetpv_length' {amask qmask pmask : Nat} {nas : Nas} {fuel sedn : Nat}
             have := foldlM_length _ (fun pv x out hx => upqStep_length pv x out hx) _ _ _ h
             rw [this, List.length_replicate]
 
+/-- the rows of `selist` that name `sedn` as its own downstream (the residual's row `[0, 0]`) are
+skipped -/
+theorem foldlM_upqStep_skip {amask qmask pmask : Nat} {nas : Nas} {rec : Nat → Except Err (List Bool)}
+    {sedn : Nat} {usetdn : List Row} : ∀ (l : List Nat) (init : List Bool),
+    l.foldlM (upqStep amask qmask pmask nas rec sedn usetdn) init =
+      (l.filter (fun s => decide (s ≠ sedn))).foldlM (upqStep amask qmask pmask nas rec sedn usetdn) init
+  | [], _ => rfl
+  | x :: t, init => by
+      by_cases hx : x = sedn
+      · have h1 : upqStep amask qmask pmask nas rec sedn usetdn init x = pure init := by
+          unfold upqStep; rw [if_pos hx]
+        rw [List.foldlM_cons, h1, List.filter_cons]
+        simp only [hx, ne_eq, not_true_eq_false, decide_false, Bool.false_eq_true, if_false]
+        exact foldlM_upqStep_skip t init
+      · rw [List.filter_cons]
+        simp only [ne_eq, hx, not_false_eq_true, decide_true, if_true, List.foldlM_cons]
+        congr 1
+        funext pv
+        exact foldlM_upqStep_skip t pv
+
 /-- one upstream SE without upstream SEs of its own and without a reordering map: the rows of
 its boundary receive, in table order, its q-set flags; every other row stays `False`. -/
 theorem upqsetpv_one {amask qmask pmask : Nat} {nas : Nas} {fuel sedn seup : Nat}
     {usetdn usetup : List Row} {dnids : List Nat} {qup m : List Bool}
-    (hups : (nas.selist.filter fun r => r.2 = sedn).map (·.1) = [seup]) (hne : seup ≠ sedn)
+    (hups : ((nas.selist.filter fun r => r.2 = sedn).map (·.1)).filter (fun s => decide (s ≠ sedn))
+      = [seup]) (hne : seup ≠ sedn)
     (hleaf : nas.selist.any (fun r => r.2 = seup) = false)
     (h1 : lookupD nas.uset sedn = .ok usetdn) (h2 : lookupD nas.uset seup = .ok usetup)
     (h3 : lookupD nas.dnids seup = .ok dnids) (h4 : lookupD nas.maps seup = .ok [])
@@ -309,8 +330,10 @@ theorem upqsetpv_one {amask qmask pmask : Nat} {nas : Nas} {fuel sedn seup : Nat
       if qup.any id then .ok (scatter (List.replicate usetdn.length false) (positions m) qup)
       else .ok (List.replicate usetdn.length false) := by
     unfold upqsetpv
-    simp only [hups]
-    rw [if_neg (by simp), h1]
+    simp only
+    rw [if_neg (by intro h0; rw [h0] at hups; cases hups), h1]
+    simp only [bind, Except.bind]
+    rw [foldlM_upqStep_skip, hups]
     simp only [bind, Except.bind, List.foldlM_cons, List.foldlM_nil, hstep]
     by_cases ha : qup.any id = true
     · simp only [ha, if_true]; rfl
